@@ -351,7 +351,20 @@ def g_model(c, incremental=False):
                               "args": [], "desc": None, "dep": None})
         fields += g_fields(0, 3, taken)
         m["objects"].append({"name": n, "desc": g_desc(c), "interfaces": impl, "fields": fields})
-    # covariance fix-up: implementations of fields typed by an interface/union may narrow
+    # every interface gets at least one implementing object (a value of the interface type must exist)
+    for iface in m["interfaces"]:
+        if any(iface["name"] in o["interfaces"] for o in m["objects"]):
+            continue
+        o = m["objects"][-1]
+        have = {f["name"] for f in o["fields"]}
+        for qn in [iface["name"]] + iface["interfaces"]:
+            if qn not in o["interfaces"]:
+                o["interfaces"].append(qn)
+                for fld in mm.get(qn)["fields"]:
+                    if fld["name"] in have:
+                        o["fields"] = [f for f in o["fields"] if f["name"] != fld["name"]]
+                    have.add(fld["name"])
+                    o["fields"].append(implement(canon[fld["name"]]))
     for un in union_names:
         members = []
         for _ in range(c.count(1, 3)):
